@@ -310,7 +310,7 @@ SFlagged == /\ spc = "signal.flagged"
 
 SNode ==
   /\ spc = "signal.node"
-  /\ IF status[si] = RUN /\ ~cfg.repeat[si]
+  /\ IF status[si] \in {RUN, CANC} /\ ~cfg.repeat[si]            \* a node signalled before is labelled canceled: later rounds reach it too
        THEN /\ status' = [status EXCEPT ![si] = CANC]
             /\ sigd' = [sigd EXCEPT ![si] = IF cmd[si] /\ alive[si] THEN Stronger(@, sround) ELSE @]
        ELSE UNCHANGED <<status, sigd>>
